@@ -31,6 +31,10 @@ pub struct Case {
     /// dimension 1-2 (`problem` and `y0` are ignored)
     #[serde(default)]
     pub cplx: Vec<(f64, f64, f64, f64)>,
+    /// cap-limited class (linear problem whose modes all decay): the maximum step is chosen so small that the
+    /// local error at that step is below a thousandth of the tolerance, so every step should be a maximal one
+    #[serde(default)]
+    pub cap_limited: bool,
 }
 
 /// Order-appropriate work of a linear problem y' = A (y - c) whose solution is known: a method whose error
@@ -147,12 +151,23 @@ pub fn run_case(case: &Case) -> Outcome {
     let solver = case.solver;
     // time-scale of the problem: Lipschitz constant or forcing frequency, whichever is faster
     let l = cp.rate;
-    let dt_max = case.ldt / l;
-    let dt_min = dt_max * 10f64.powf(-case.min_exp);
     let p = solver.est_order();
+    let ldt = match (&case.problem, case.cap_limited) {
+        (Problem::Lin { center, .. }, true) => {
+            // |y - c| <= cond |y0 - c| for decaying modes; local error per unit step ~ (L dt)^p |y - c| L
+            let d0 = case.y0.iter().zip(center).map(|(a, b)| (a - b) * (a - b)).sum::<f64>().sqrt();
+            let size = (cp.cond * d0 * l).max(1e-3);
+            o.label("cap-limited");
+            case.ldt.min((1e-3 * case.tol / size).powf(1.0 / p)).max(1e-5)
+        }
+        _ => case.ldt,
+    };
+    let dt_max = ldt / l;
+    let dt_min = dt_max * 10f64.powf(-case.min_exp);
     // the relaxing class costs far less than the unit of the statement (the steps regrow), so it may run 15x longer
     let cap = o_cap() * if case.relax_len > 0.0 { 15.0 } else { 1.0 };
     let t_len = case.tlen.min(cap / (l * case.tol.powf(-1.0 / p))).max(3.0 * dt_max);
+    let t_len = if case.cap_limited { t_len.min(4000.0 * dt_max) } else { t_len };
     if case.relax_len > 0.0 {
         o.label("relaxing-long");
     }
@@ -244,6 +259,30 @@ pub fn run_case(case: &Case) -> Outcome {
             ));
         }
     }
+    if case.cap_limited {
+        // every step should be a maximal one: a fixed number of evaluations per maximal step. 3x the measured counts
+        // (rk45 5.9, rk23 4.0, adams5 3.6, adams3 3.0, bdf6 7.5, bdf2 10.3) plus a constant for start-up and regrowth
+        let steps = t_len / dt_max;
+        let kcap = match solver {
+            SolverKind::RK45 => 18.0,
+            SolverKind::RK23 => 12.0,
+            SolverKind::Adams5 => 12.0,
+            SolverKind::Adams3 => 9.0,
+            SolverKind::BDF6 => 23.0,
+            SolverKind::BDF2 => 33.0,
+            _ => 33.0,
+        };
+        let allowed = kcap * steps + 400.0;
+        o.set(&format!("ratio_capwork_evals_per_maxstep_{}", solver.name()), calls as f64 / (steps + 40.0) / kcap);
+        o.set(&format!("ratio_capwork_{}", solver.name()), calls as f64 / allowed);
+        if calls as f64 > allowed {
+            return o.fail(format!(
+                "{}: the maximum step {dt_max:.3e} keeps the local error below a thousandth of the tolerance {:e}, yet {steps:.0} maximal steps took {calls} derivative evaluations (allowed {kcap} per maximal step + 400): steps are rejected or restarted although nothing limits them",
+                solver.name(),
+                case.tol
+            ));
+        }
+    }
     if let Some(ts) = tail {
         // the relaxed tail: maximal steps, i.e. a fixed number of evaluations per maximal step
         o.label("relaxed-tail");
@@ -299,15 +338,17 @@ fn strategy(_t: Tier) -> BoxedStrategy<Case> {
         2 => problem_sep().prop_map(|p| (p, false)),
         3 => problem_generic().prop_map(|p| (p, false)),
     ];
-    let plain = (proptest::sample::select(&ADAPTIVE[..]), prob, prop_oneof![1 => Just(0.0), 3 => gen::fl(-2.0, 2.0)], gen::fl(0.05, 0.5), gen::fl(6.0, 10.0), gen::logu(-9.0, -3.0), gen::fl(1.0, 10.0))
-        .prop_map(|(solver, ((problem, y0), at_rest), t0, ldt, min_exp, tol, tlen)| Case { solver, problem, y0, t0, ldt, min_exp, tol, tlen, at_rest, relax_len: 0.0, cplx: vec![] });
+    let plain = (proptest::sample::select(&ADAPTIVE[..]), prob, prop_oneof![1 => Just(0.0), 3 => gen::fl(-2.0, 2.0)], gen::fl(0.05, 0.5), prop_oneof![6 => gen::fl(6.0, 10.0), 1 => gen::fl(10.0, 20.0), 1 => Just(100.0), 1 => Just(300.0)], gen::logu(-9.0, -3.0), gen::fl(1.0, 10.0))
+        .prop_map(|(solver, ((problem, y0), at_rest), t0, ldt, min_exp, tol, tlen)| Case { solver, problem, y0, t0, ldt, min_exp, tol, tlen, at_rest, relax_len: 0.0, cplx: vec![], cap_limited: false });
     let relaxing = (proptest::sample::select(&ADAPTIVE[..]), problem_relaxing(), prop_oneof![1 => Just(0.0), 3 => gen::fl(-2.0, 2.0)], gen::fl(0.05, 0.5), gen::fl(6.0, 10.0), gen::logu(-9.0, -3.0), gen::fl(10.0, 60.0))
-        .prop_map(|(solver, (problem, y0, mu), t0, ldt, min_exp, tol, relax_len)| Case { solver, problem, y0, t0, ldt, min_exp, tol, tlen: relax_len / mu, at_rest: true, relax_len, cplx: vec![] });
+        .prop_map(|(solver, (problem, y0, mu), t0, ldt, min_exp, tol, relax_len)| Case { solver, problem, y0, t0, ldt, min_exp, tol, tlen: relax_len / mu, at_rest: true, relax_len, cplx: vec![], cap_limited: false });
     let comp = || (gen::fl(-1.0, 0.5), gen::fl(-3.0, 3.0), gen::fl(-2.0, 2.0), gen::fl(-2.0, 2.0));
     let complex = (proptest::sample::select(&ADAPTIVE[..]), proptest::collection::vec(comp(), 1..=2), prop_oneof![1 => Just(0.0), 3 => gen::fl(-2.0, 2.0)], gen::fl(0.05, 0.5), gen::fl(6.0, 10.0), gen::logu(-9.0, -3.0), gen::fl(1.0, 10.0)).prop_map(
-        |(solver, cplx, t0, ldt, min_exp, tol, tlen)| Case { solver, problem: Problem::Lin { blocks: vec![], mix: vec![], center: vec![] }, y0: vec![], t0, ldt, min_exp, tol, tlen, at_rest: false, relax_len: 0.0, cplx },
+        |(solver, cplx, t0, ldt, min_exp, tol, tlen)| Case { solver, problem: Problem::Lin { blocks: vec![], mix: vec![], center: vec![] }, y0: vec![], t0, ldt, min_exp, tol, tlen, at_rest: false, relax_len: 0.0, cplx, cap_limited: false },
     );
-    prop_oneof![10 => plain, 2 => relaxing, 1 => complex].boxed()
+    let capped = (proptest::sample::select(&ADAPTIVE[..]), problem_relaxing(), prop_oneof![1 => Just(0.0), 3 => gen::fl(-2.0, 2.0)], gen::fl(0.05, 0.5), gen::fl(6.0, 10.0), gen::logu(-9.0, -3.0), gen::fl(0.5, 3.0))
+        .prop_map(|(solver, (problem, y0, mu), t0, ldt, min_exp, tol, len)| Case { solver, problem, y0, t0, ldt, min_exp, tol, tlen: len / mu, at_rest: false, relax_len: 0.0, cplx: vec![], cap_limited: true });
+    prop_oneof![10 => plain, 2 => relaxing, 1 => complex, 1 => capped].boxed()
 }
 
 pub fn run(opts: &Opts) -> i32 {
@@ -315,14 +356,14 @@ pub fn run(opts: &Opts) -> i32 {
     // the crate's own doc examples: y' = y and y' = -y on [0,10], every solver
     for solver in ADAPTIVE {
         for a in [1.0 / 3.0, -1.0] {
-            spec.enumerated.push(Case { solver, problem: Problem::Lin { blocks: vec![(a, 0.0)], mix: vec![0.0; 16], center: vec![0.0] }, y0: vec![1.0], t0: 0.0, ldt: 0.1 * a.abs(), min_exp: 6.0, tol: 1e-5, tlen: 10.0, at_rest: false, relax_len: 0.0, cplx: vec![] });
+            spec.enumerated.push(Case { solver, problem: Problem::Lin { blocks: vec![(a, 0.0)], mix: vec![0.0; 16], center: vec![0.0] }, y0: vec![1.0], t0: 0.0, ldt: 0.1 * a.abs(), min_exp: 6.0, tol: 1e-5, tlen: 10.0, at_rest: false, relax_len: 0.0, cplx: vec![], cap_limited: false });
         }
         // a solution exactly at rest
-        spec.enumerated.push(Case { solver, problem: Problem::Lin { blocks: vec![(-1.0, 0.0), (-0.5, 1.0)], mix: vec![0.2; 16], center: vec![1.0, -2.0, 0.5] }, y0: vec![1.0, -2.0, 0.5], t0: 0.0, ldt: 0.2, min_exp: 7.0, tol: 1e-6, tlen: 5.0, at_rest: true, relax_len: 0.0, cplx: vec![] });
+        spec.enumerated.push(Case { solver, problem: Problem::Lin { blocks: vec![(-1.0, 0.0), (-0.5, 1.0)], mix: vec![0.2; 16], center: vec![1.0, -2.0, 0.5] }, y0: vec![1.0, -2.0, 0.5], t0: 0.0, ldt: 0.2, min_exp: 7.0, tol: 1e-6, tlen: 5.0, at_rest: true, relax_len: 0.0, cplx: vec![], cap_limited: false });
     }
     spec.cases = opts.tier.pick(12_000, 400_000);
-    spec.essential = vec![("estimator-limited", 0.2), ("at-rest-or-relaxing", 0.1), ("generic", 0.1), ("bdf2", 0.08), ("rk23", 0.08), ("relaxing-long", 0.1), ("complex-field", 0.05), ("relaxed-tail", 0.03)];
-    spec.rule = "generated: six adaptive solvers x problem family P incl. solutions at rest / relaxing to a steady state x tolerance 10^[-9,-3] x L dt_max in [0.05,0.5] (L = max of the Lipschitz constant and the forcing frequencies) x dt_min = dt_max 10^-[6,10] x interval length 1-10 (shortened so that T L tol^(-1/p) <= 2e4; 3e5 for the long relaxations); the user function counts its calls and enforces the hard budget K (T L tol^(-1/p) + T/dt_max) + 400 (p = 4,2,4,2,6,2 for RK45, RK23, Adams5, Adams3, BDF6, BDF2; K = 100, 100, 100, 100, 300, 800). A sixth of the cases are long relaxations (every mode decays, start at distance O(1) from the steady state, 10-60 e-foldings of the slowest mode); for those the work is also held to K' x the integral of max(L (|y(t)-y*|/tol)^(1/p), 1/dt_max) dt along the exact solution (never more than the unit above; K' = 60, 40, 40, 30, 100, 300), and once the exact solution stays within 1e-3 tol of the steady state (tail of >= 50 maximal steps) the evaluations made at later times are held to K'' per maximal step + 400 (K'' = 18, 12, 12, 9, 21, 30: three times the measured evaluations per maximal step), i.e. the steps must regrow to the maximum once the solution has relaxed. One case in thirteen is a complex-valued decoupled linear problem y_k' = (a_k + i w_k) y_k (dimension 1-2) held to the same budget. Oracle: the solve returns without error, ends at the ending time with a C01-valid path, and stays within the budget; at least one evaluation per maximal step. Non-trivial = estimator-limited path (a step below 0.98 dt_max) or the at-rest/relaxing class. Distinct = distinct case JSON.".into();
+    spec.essential = vec![("estimator-limited", 0.2), ("at-rest-or-relaxing", 0.1), ("generic", 0.1), ("bdf2", 0.08), ("rk23", 0.08), ("relaxing-long", 0.1), ("complex-field", 0.05), ("relaxed-tail", 0.03), ("cap-limited", 0.04)];
+    spec.rule = "generated: six adaptive solvers x problem family P incl. solutions at rest / relaxing to a steady state x tolerance 10^[-9,-3] x L dt_max in [0.05,0.5] (L = max of the Lipschitz constant and the forcing frequencies) x dt_min = dt_max 10^-[6,10] (a third of the plain cases 10^-[10,20], 1e-100 or 1e-300: a minimum step that is effectively switched off) x interval length 1-10 (shortened so that T L tol^(-1/p) <= 2e4; 3e5 for the long relaxations); the user function counts its calls and enforces the hard budget K (T L tol^(-1/p) + T/dt_max) + 400 (p = 4,2,4,2,6,2 for RK45, RK23, Adams5, Adams3, BDF6, BDF2; K = 100, 100, 100, 100, 300, 800). A sixth of the cases are long relaxations (every mode decays, start at distance O(1) from the steady state, 10-60 e-foldings of the slowest mode); for those the work is also held to K' x the integral of max(L (|y(t)-y*|/tol)^(1/p), 1/dt_max) dt along the exact solution (never more than the unit above; K' = 60, 40, 40, 30, 100, 300), and once the exact solution stays within 1e-3 tol of the steady state (tail of >= 50 maximal steps) the evaluations made at later times are held to K'' per maximal step + 400 (K'' = 18, 12, 12, 9, 21, 30: three times the measured evaluations per maximal step), i.e. the steps must regrow to the maximum once the solution has relaxed. One case in fourteen is cap-limited (decaying linear problem, maximum step so small that the local error at it is below tol/1000): the whole solve is held to K''' = 18, 12, 12, 9, 23, 33 evaluations per maximal step + 400. One case in thirteen is a complex-valued decoupled linear problem y_k' = (a_k + i w_k) y_k (dimension 1-2) held to the same budget. Oracle: the solve returns without error, ends at the ending time with a C01-valid path, and stays within the budget; at least one evaluation per maximal step. Non-trivial = estimator-limited path (a step below 0.98 dt_max) or the at-rest/relaxing class. Distinct = distinct case JSON.".into();
     spec.max_shrink_iters = 300;
     run_spec(spec, opts)
 }
